@@ -38,6 +38,8 @@ Section Proofs.
   Variable ep_langs : list ldesc.
   Variable ep_gens : list gdesc.
   Notation step := (step fnm ep_langs ep_gens).
+  Notation step_ok := (step_ok fnm ep_langs ep_gens).
+  Notation sstep_ok := (sstep_ok fnm ep_langs ep_gens).
   Notation sstep := (sstep fnm ep_langs ep_gens).
   Notation abs := (abs ep_langs ep_gens).
   Notation run := (run fnm ep_langs ep_gens).
@@ -87,7 +89,7 @@ Section Proofs.
   Qed.
 
   (* the implementation machine in canonical form *)
-  Definition cstep (s : state) (o : op) : state * result :=
+  Definition cstep_ok (s : state) (o : op) : state * result :=
     match o with
     | RegLang d => let t := force_l ep_langs s in
                    match reg_lang d t with
@@ -136,27 +138,49 @@ Section Proofs.
     | GenDescs => let t := force_g ep_gens s in (with_g s t, RGens (flat_map (fun lg => map snd (snd lg)) t))
     end.
 
-  Lemma step_eq s o : step s o = cstep s o.
+  Lemma step_ok_eq s o : step_ok s o = cstep_ok s o.
   Proof.
-    destruct o; unfold Registry.step, cstep;
+    destruct o; unfold Registry.step_ok, cstep_ok;
       rewrite ?ireg_lang_eq, ?ireg_gen_eq, ?ilang_description_eq, ?igen_description_eq, ?ilangs_for_file_eq,
               ?imm_for_lang_eq, ?imms_for_eq, ?f_clear_langs, ?f_clear_cache, ?f_clear_gens, ?f_mm_key; cbn [lw]; try reflexivity.
     all: destruct (langs_for_file fnm f _) as [|d [|d' ds]]; rewrite ?imm_for_lang_eq; reflexivity.
   Qed.
 
-  Lemma cstep_refines s o : sstep (abs s) o = (abs (fst (cstep s o)), snd (cstep s o)).
+  (* discovery through the register functions of the source = discovery through the canonical ones *)
+  Lemma load_from_ext {T D} (f g : D -> T -> option T) : (forall d t, f d t = g d t) ->
+    forall eps t, load_from f eps t = load_from g eps t.
   Proof.
-    destruct s as [l g c n]. destruct o; unfold abs, Registry.abs, cstep; cbn -[reg_lang reg_gen mm_for_lang mms_for langs_for_file gen_description load_langs load_gens].
+    intros E. induction eps as [|d r IH]; intro t; cbn [load_from]; [reflexivity|].
+    rewrite E. destruct (g d t); [apply IH | reflexivity].
+  Qed.
+  Lemma iload_langs_eq : iload_langs_full ep_langs = load_langs_full ep_langs.
+  Proof. apply load_from_ext. exact ireg_lang_eq. Qed.
+  Lemma iload_gens_eq : iload_gens_full ep_gens = load_gens_full ep_gens.
+  Proof. apply load_from_ext. exact ireg_gen_eq. Qed.
+
+  Lemma needs_l_eq o c : needs_l o c = sneeds_l o c.
+  Proof. destruct o; reflexivity. Qed.   (* uses mm_key_lowered = true by conversion *)
+
+  Lemma cstep_ok_refines s o :
+    (needs_l o (cache s) = true -> fail_l ep_langs s = false) -> (needs_g o = true -> fail_g ep_gens s = false) ->
+    sstep_ok (abs s) o = (abs (fst (cstep_ok s o)), snd (cstep_ok s o)).
+  Proof.
+    intros Hl Hg. destruct s as [l g c n].
+    destruct o; cbn [needs_l needs_g cache] in Hl, Hg; try specialize (Hl eq_refl); try specialize (Hg eq_refl);
+      unfold abs, Registry.abs, cstep_ok, Registry.sstep_ok;
+      cbn -[reg_lang reg_gen mm_for_lang mms_for langs_for_file gen_description load_langs load_gens load_langs_bad load_gens_bad iload_langs_full iload_gens_full] in *;
+      try (rewrite Hl by fail); try (rewrite Hg by fail).
     - (* RegLang *) destruct (reg_lang d _); reflexivity.
-    - reflexivity.
+    - (* ClearLangs *) rewrite iload_langs_eq. reflexivity.
     - destruct (reg_gen d _); reflexivity.
-    - reflexivity.
+    - (* ClearGens *) rewrite iload_gens_eq. reflexivity.
     - reflexivity.
     - reflexivity.
     - reflexivity.
     - reflexivity.
     - (* MMForLang *)
-      destruct (lookup (lower n0) c) as [m|] eqn:Hc; destruct kw;
+      try rewrite f_mm_key in Hl. cbn [lw] in Hl.
+      destruct (lookup (lower n0) c) as [m|] eqn:Hc; destruct kw; try specialize (Hl eq_refl); try (rewrite Hl by fail);
         try (destruct (mm_for_lang _ _ _ _ _) as [[[m'|] c'] n']; reflexivity).
       unfold mm_for_lang. rewrite Hc. reflexivity.
     - (* MMForFile *)
@@ -168,7 +192,17 @@ Section Proofs.
   Qed.
 
   Lemma step_refines s o : sstep (abs s) o = (abs (fst (step s o)), snd (step s o)).
-  Proof. rewrite step_eq. apply cstep_refines. Qed.
+  Proof.
+    unfold Registry.step, Registry.sstep. rewrite <- needs_l_eq.
+    change (scache (abs s)) with (cache s). change (slfail (abs s)) with (fail_l ep_langs s). change (sgfail (abs s)) with (fail_g ep_gens s).
+    destruct (needs_l o (cache s) && fail_l ep_langs s)%bool eqn:El.
+    - apply andb_true_iff in El as [_ El]. destruct s as [l g c n]. destruct l as [t|]; [discriminate|]. reflexivity.
+    - destruct (needs_g o && fail_g ep_gens s)%bool eqn:Eg.
+      + apply andb_true_iff in Eg as [_ Eg]. destruct s as [l g c n]. destruct g as [t|]; [discriminate|]. reflexivity.
+      + rewrite step_ok_eq. apply cstep_ok_refines.
+        * intro H. rewrite H in El. exact El.
+        * intro H. rewrite H in Eg. exact Eg.
+  Qed.
 
   Lemma run_refines : forall ops s, run s ops = srun (abs s) ops.
   Proof.
@@ -178,7 +212,11 @@ Section Proofs.
   Qed.
 
   Theorem refines ops : run (init) ops = srun (sinit ep_langs ep_gens) ops.
-  Proof. rewrite run_refines. reflexivity. Qed.
+  Proof.
+    rewrite run_refines. unfold abs, Registry.abs, sinit, force_l, force_g, fail_l, fail_g, init.
+    cbn [langs gens cache serial]. unfold load_langs, load_gens, load_langs_bad, load_gens_bad.
+    rewrite iload_langs_eq, iload_gens_eq. reflexivity.
+  Qed.
 
   (* ---------------- laws of the specification machine *)
 
@@ -204,130 +242,261 @@ Section Proofs.
   Qed.
 
   (* 1. case-insensitive lookup: the answer depends only on the lowered name *)
-  Lemma lang_lookup_ci s n n' : lower n = lower n' ->
-    snd (sstep s (LangDescription n)) = snd (sstep s (LangDescription n')).
+  Lemma lang_lookup_ci_ok s n n' : lower n = lower n' ->
+    snd (sstep_ok s (LangDescription n)) = snd (sstep_ok s (LangDescription n')).
   Proof. intro H. cbn. rewrite H. reflexivity. Qed.
 
-  Lemma gen_lookup_ci s l l' t t' a : lower l = lower l' -> lower t = lower t' ->
-    snd (sstep s (GenDescription l t a)) = snd (sstep s (GenDescription l' t' a)).
+  Lemma gen_lookup_ci_ok s l l' t t' a : lower l = lower l' -> lower t = lower t' ->
+    snd (sstep_ok s (GenDescription l t a)) = snd (sstep_ok s (GenDescription l' t' a)).
   Proof. intros H1 H2. cbn. unfold gen_description. rewrite H1, H2. reflexivity. Qed.
 
   (* 2. registration: succeeds iff no case variant is registered; then every case variant finds it,
         a second registration of any case variant is refused, other names are unaffected *)
-  Lemma reg_lang_ok_iff s d :
-    snd (sstep s (RegLang d)) = RUnit <-> lookup (lower (lname d)) (slangs s) = None.
+  Lemma reg_lang_ok_iff_ok s d :
+    snd (sstep_ok s (RegLang d)) = RUnit <-> lookup (lower (lname d)) (slangs s) = None.
   Proof.
     cbn. unfold reg_lang. destruct (lookup _ _); cbn; split; intro H; try reflexivity; discriminate.
   Qed.
 
-  Lemma reg_lang_then_lookup s d n :
-    snd (sstep s (RegLang d)) = RUnit -> lower n = lower (lname d) ->
-    snd (sstep (fst (sstep s (RegLang d))) (LangDescription n)) = RLang d.
+  Lemma reg_lang_then_lookup_ok s d n :
+    snd (sstep_ok s (RegLang d)) = RUnit -> lower n = lower (lname d) ->
+    snd (sstep_ok (fst (sstep_ok s (RegLang d))) (LangDescription n)) = RLang d.
   Proof.
-    intros H Hn. apply reg_lang_ok_iff in H. cbn. unfold reg_lang. rewrite H. cbn.
+    intros H Hn. apply reg_lang_ok_iff_ok in H. cbn. unfold reg_lang. rewrite H. cbn.
     rewrite Hn, (lookup_app_none _ _ _ _ H), str_eqb_refl. reflexivity.
   Qed.
 
-  Lemma reg_lang_dup_refused s d d' :
-    snd (sstep s (RegLang d)) = RUnit -> lower (lname d') = lower (lname d) ->
-    snd (sstep (fst (sstep s (RegLang d))) (RegLang d')) = RErr.
+  Lemma reg_lang_dup_refused_ok s d d' :
+    snd (sstep_ok s (RegLang d)) = RUnit -> lower (lname d') = lower (lname d) ->
+    snd (sstep_ok (fst (sstep_ok s (RegLang d))) (RegLang d')) = RErr.
   Proof.
-    intros H Hn. apply reg_lang_ok_iff in H. cbn. unfold reg_lang at 2. rewrite H. cbn.
+    intros H Hn. apply reg_lang_ok_iff_ok in H. cbn. unfold reg_lang at 2. rewrite H. cbn.
     unfold reg_lang. rewrite Hn, (lookup_app_none _ _ _ _ H), str_eqb_refl. reflexivity.
   Qed.
 
-  Lemma reg_lang_refused_keeps_state s d : snd (sstep s (RegLang d)) = RErr -> fst (sstep s (RegLang d)) = s.
+  Lemma reg_lang_refused_keeps_state_ok s d : snd (sstep_ok s (RegLang d)) = RErr -> fst (sstep_ok s (RegLang d)) = s.
   Proof. cbn. destruct (reg_lang d _); cbn; [discriminate | reflexivity]. Qed.
 
-  Lemma reg_lang_other_unaffected s d n :
+  Lemma reg_lang_other_unaffected_ok s d n :
     lower n <> lower (lname d) ->
-    snd (sstep (fst (sstep s (RegLang d))) (LangDescription n)) = snd (sstep s (LangDescription n)).
+    snd (sstep_ok (fst (sstep_ok s (RegLang d))) (LangDescription n)) = snd (sstep_ok s (LangDescription n)).
   Proof.
     intro Hn. cbn. unfold reg_lang. destruct (lookup (lower (lname d)) (slangs s)); cbn; [reflexivity|].
     rewrite lookup_app_other; [reflexivity|]. apply str_eqb_neq. exact Hn.
   Qed.
 
   (* 3. entry-point registrations survive clearing *)
-  Lemma clear_langs_restores_entry_points s :
-    slangs (fst (sstep s ClearLangs)) = load_langs ep_langs /\ scache (fst (sstep s ClearLangs)) = [].
+  Lemma clear_langs_restores_entry_points_ok s :
+    slangs (fst (sstep_ok s ClearLangs)) = load_langs ep_langs /\ scache (fst (sstep_ok s ClearLangs)) = [].
   Proof. split; reflexivity. Qed.
 
-  Lemma clear_gens_restores_entry_points s : sgens (fst (sstep s ClearGens)) = load_gens ep_gens.
+  Lemma clear_gens_restores_entry_points_ok s : sgens (fst (sstep_ok s ClearGens)) = load_gens ep_gens.
   Proof. reflexivity. Qed.
 
-  Lemma entry_point_lang_found_after_clear s d :
+  Lemma entry_point_lang_found_after_clear_ok s d :
     lookup (lower (lname d)) (load_langs ep_langs) = Some d ->
-    snd (sstep (fst (sstep s ClearLangs)) (LangDescription (lname d))) = RLang d.
+    snd (sstep_ok (fst (sstep_ok s ClearLangs)) (LangDescription (lname d))) = RLang d.
   Proof. intro H. cbn. rewrite H. reflexivity. Qed.
 
   (* 4. languages_for_file: exactly the registered languages whose pattern matches, in order *)
-  Lemma langs_for_file_exact s f d :
-    In d (match snd (sstep s (LangsForFile f)) with RLangs l => l | _ => [] end) <->
+  Lemma langs_for_file_exact_ok s f d :
+    In d (match snd (sstep_ok s (LangsForFile f)) with RLangs l => l | _ => [] end) <->
     In d (map snd (slangs s)) /\ matches fnm f d = true.
   Proof. cbn. unfold langs_for_file. apply filter_In. Qed.
 
-  Lemma lang_for_file_unique s f d :
-    snd (sstep s (LangForFile f)) = RLang d <-> langs_for_file fnm f (slangs s) = [d].
+  Lemma lang_for_file_unique_ok s f d :
+    snd (sstep_ok s (LangForFile f)) = RLang d <-> langs_for_file fnm f (slangs s) = [d].
   Proof.
     cbn. destruct (langs_for_file fnm f (slangs s)) as [|d0 [|d1 l]]; split; intro H;
       try discriminate; try (inversion H; reflexivity).
   Qed.
 
-  Lemma lang_for_file_fails_otherwise s f :
-    length (langs_for_file fnm f (slangs s)) <> 1 -> snd (sstep s (LangForFile f)) = RErr.
+  Lemma lang_for_file_fails_otherwise_ok s f :
+    length (langs_for_file fnm f (slangs s)) <> 1 -> snd (sstep_ok s (LangForFile f)) = RErr.
   Proof.
     cbn. destruct (langs_for_file fnm f (slangs s)) as [|d0 [|d1 l]]; cbn; intro H; try reflexivity.
     exfalso. apply H. reflexivity.
   Qed.
 
-  Lemma lang_for_file_exactly_one s f :
-    (forall d, snd (sstep s (LangForFile f)) = RLang d <-> langs_for_file fnm f (slangs s) = [d]) /\
-    (length (langs_for_file fnm f (slangs s)) <> 1 -> snd (sstep s (LangForFile f)) = RErr).
-  Proof. split; [intro d; apply lang_for_file_unique | apply lang_for_file_fails_otherwise]. Qed.
+  Lemma lang_for_file_exactly_one_ok s f :
+    (forall d, snd (sstep_ok s (LangForFile f)) = RLang d <-> langs_for_file fnm f (slangs s) = [d]) /\
+    (length (langs_for_file fnm f (slangs s)) <> 1 -> snd (sstep_ok s (LangForFile f)) = RErr).
+  Proof. split; [intro d; apply lang_for_file_unique_ok | apply lang_for_file_fails_otherwise_ok]. Qed.
 
   (* 5. metamodel cache *)
-  Lemma lookup_update_same {A} k (v : A) l : lookup k (update k v l) = Some v.
+  Lemma lookup_update_same_ok {A} k (v : A) l : lookup k (update k v l) = Some v.
   Proof.
     induction l as [|[k0 v0] l IH]; simpl; [rewrite str_eqb_refl; reflexivity|].
     destruct (str_eqb k k0) eqn:E; simpl; [rewrite str_eqb_refl; reflexivity|]. rewrite E. exact IH.
   Qed.
 
   (* without arguments a cached instance is returned and nothing changes *)
-  Lemma mm_cached_returned s n m :
-    lookup (lower n) (scache s) = Some m -> sstep s (MMForLang n false) = (s, RMM m).
+  Lemma mm_cached_returned_ok s n m :
+    lookup (lower n) (scache s) = Some m -> sstep_ok s (MMForLang n false) = (s, RMM m).
   Proof. intro H. cbn. unfold mm_for_lang. rewrite H. destruct s; reflexivity. Qed.
 
   (* whatever a successful request returns is what the next request without arguments
      returns, under any case variant of the name *)
-  Lemma mm_then_cached s n kw m n' :
-    snd (sstep s (MMForLang n kw)) = RMM m -> lower n' = lower n ->
-    snd (sstep (fst (sstep s (MMForLang n kw))) (MMForLang n' false)) = RMM m.
+  Lemma mm_then_cached_ok s n kw m n' :
+    snd (sstep_ok s (MMForLang n kw)) = RMM m -> lower n' = lower n ->
+    snd (sstep_ok (fst (sstep_ok s (MMForLang n kw))) (MMForLang n' false)) = RMM m.
   Proof.
     intros H Hn. cbn in *. unfold mm_for_lang in *. rewrite Hn.
     destruct (lookup (lower n) (scache s)) as [m0|] eqn:Hc; destruct kw;
       try (cbn in *; rewrite Hc; cbn; exact H);
       (destruct (lookup (lower n) (slangs s)) as [d|]; [destruct (lsrc d)|]; cbn in *; try discriminate;
-       rewrite lookup_update_same; cbn; exact H).
+       rewrite lookup_update_same_ok; cbn; exact H).
   Qed.
 
   (* a factory-registered language called with arguments yields a fresh instance *)
-  Lemma mm_factory_kwargs_fresh s n d f :
+  Lemma mm_factory_kwargs_fresh_ok s n d f :
     lookup (lower n) (slangs s) = Some d -> lsrc d = Factory f ->
-    snd (sstep s (MMForLang n true)) = RMM (MMFresh f (sserial s) true) /\
-    sserial (fst (sstep s (MMForLang n true))) = S (sserial s).
+    snd (sstep_ok s (MMForLang n true)) = RMM (MMFresh f (sserial s) true) /\
+    sserial (fst (sstep_ok s (MMForLang n true))) = S (sserial s).
   Proof.
     intros Hl Hs. cbn. unfold mm_for_lang. rewrite Hl, Hs.
     destruct (lookup (lower n) (scache s)); cbn; split; reflexivity.
   Qed.
 
   (* an instance-registered language always yields that instance *)
-  Lemma mm_instance s n d i kw :
+  Lemma mm_instance_ok s n d i kw :
     lookup (lower n) (scache s) = None \/ kw = true ->
     lookup (lower n) (slangs s) = Some d -> lsrc d = Instance i ->
-    snd (sstep s (MMForLang n kw)) = RMM (MMInst i).
+    snd (sstep_ok s (MMForLang n kw)) = RMM (MMInst i).
   Proof.
     intros Hc Hl Hs. cbn. unfold mm_for_lang. rewrite Hl, Hs.
     destruct Hc as [Hc| ->]; [rewrite Hc; reflexivity|].
     destruct (lookup (lower n) (scache s)); reflexivity.
   Qed.
+
+  (* ---------------- the same laws for the full specification machine [sstep], which reports a pending
+     entry-point discovery failure first *)
+  Lemma sstep_no_failure s o : slfail s = false -> sgfail s = false -> sstep s o = sstep_ok s o.
+  Proof. intros H1 H2. unfold Registry.sstep. rewrite H1, H2, !andb_false_r. reflexivity. Qed.
+
+  Lemma sstep_lang s o : needs_g o = false -> slfail s = false -> sstep s o = sstep_ok s o.
+  Proof. intros H1 H2. unfold Registry.sstep. rewrite H1, H2, andb_false_r. reflexivity. Qed.
+
+  Lemma sstep_failure_l s o : sneeds_l o (scache s) = true -> slfail s = true -> snd (sstep s o) = RErr.
+  Proof. intros H1 H2. unfold Registry.sstep. rewrite H1, H2. reflexivity. Qed.
+
+  Lemma lang_lookup_ci s n n' : lower n = lower n' ->
+    snd (sstep s (LangDescription n)) = snd (sstep s (LangDescription n')).
+  Proof.
+    intro H. unfold Registry.sstep. cbn [sneeds_l needs_g andb]. destruct (slfail s); [reflexivity|].
+    apply lang_lookup_ci_ok. exact H.
+  Qed.
+
+  Lemma gen_lookup_ci s l l' t t' a : lower l = lower l' -> lower t = lower t' ->
+    snd (sstep s (GenDescription l t a)) = snd (sstep s (GenDescription l' t' a)).
+  Proof.
+    intros H1 H2. unfold Registry.sstep. cbn [sneeds_l needs_g andb]. destruct (sgfail s); [reflexivity|].
+    apply gen_lookup_ci_ok; assumption.
+  Qed.
+
+  Lemma reg_lang_unit_no_failure s d : snd (sstep s (RegLang d)) = RUnit -> slfail s = false.
+  Proof. intro H. destruct (slfail s) eqn:E; [|reflexivity]. rewrite (sstep_failure_l s (RegLang d) eq_refl E) in H. discriminate. Qed.
+
+  Lemma reg_lang_keeps_flag s d : slfail (fst (sstep_ok s (RegLang d))) = slfail s.
+  Proof. cbn. destruct (reg_lang d (slangs s)); reflexivity. Qed.
+
+  Lemma reg_lang_then_lookup s d n :
+    snd (sstep s (RegLang d)) = RUnit -> lower n = lower (lname d) ->
+    snd (sstep (fst (sstep s (RegLang d))) (LangDescription n)) = RLang d.
+  Proof.
+    intros H Hn. pose proof (reg_lang_unit_no_failure s d H) as F.
+    rewrite (sstep_lang s (RegLang d) eq_refl F) in *.
+    rewrite (sstep_lang _ (LangDescription n) eq_refl); [|rewrite reg_lang_keeps_flag; exact F].
+    apply reg_lang_then_lookup_ok; assumption.
+  Qed.
+
+  Lemma reg_lang_dup_refused s d d' :
+    snd (sstep s (RegLang d)) = RUnit -> lower (lname d') = lower (lname d) ->
+    snd (sstep (fst (sstep s (RegLang d))) (RegLang d')) = RErr.
+  Proof.
+    intros H Hn. pose proof (reg_lang_unit_no_failure s d H) as F.
+    rewrite (sstep_lang s (RegLang d) eq_refl F) in *.
+    rewrite (sstep_lang _ (RegLang d') eq_refl); [|rewrite reg_lang_keeps_flag; exact F].
+    apply reg_lang_dup_refused_ok; assumption.
+  Qed.
+
+  (* a registration refused because the name is taken changes nothing (a pending discovery failure
+     is a different refusal: it is consumed) *)
+  Lemma reg_lang_refused_keeps_state s d : slfail s = false ->
+    snd (sstep s (RegLang d)) = RErr -> fst (sstep s (RegLang d)) = s.
+  Proof. intros F. rewrite (sstep_lang s (RegLang d) eq_refl F). apply reg_lang_refused_keeps_state_ok. Qed.
+
+  Lemma reg_lang_other_unaffected s d n : slfail s = false ->
+    lower n <> lower (lname d) ->
+    snd (sstep (fst (sstep s (RegLang d))) (LangDescription n)) = snd (sstep s (LangDescription n)).
+  Proof.
+    intros F Hn. rewrite (sstep_lang s (RegLang d) eq_refl F), (sstep_lang s (LangDescription n) eq_refl F).
+    rewrite (sstep_lang _ (LangDescription n) eq_refl); [|rewrite reg_lang_keeps_flag; exact F].
+    apply reg_lang_other_unaffected_ok. exact Hn.
+  Qed.
+
+  (* entry-point registrations survive clearing - when discovery succeeds *)
+  Lemma entry_point_lang_found_after_clear s d :
+    load_langs_bad ep_langs = false ->
+    lookup (lower (lname d)) (load_langs ep_langs) = Some d ->
+    snd (sstep (fst (sstep s ClearLangs)) (LangDescription (lname d))) = RLang d.
+  Proof.
+    intros B H. unfold Registry.sstep at 2. cbn [sneeds_l needs_g andb].
+    rewrite (sstep_lang _ (LangDescription (lname d)) eq_refl); [|exact B].
+    apply entry_point_lang_found_after_clear_ok. exact H.
+  Qed.
+
+  (* a duplicate among the entry points: the FIRST operation consulting the language map after
+     clearing reports the registration error; afterwards the map holds the entry points before the
+     duplicate (and nothing reports the failure again until the next clearing) *)
+  Lemma entry_point_duplicate_reported_once s o n :
+    load_langs_bad ep_langs = true -> sneeds_l o [] = true ->
+    let s1 := fst (sstep s ClearLangs) in
+    snd (sstep s1 o) = RErr /\
+    snd (sstep (fst (sstep s1 o)) (LangDescription n))
+      = match lookup (lower n) (load_langs ep_langs) with Some d => RLang d | None => RErr end.
+  Proof.
+    intros B Ho s1.
+    assert (E1 : s1 = {| slangs := load_langs ep_langs; slfail := true; sgens := sgens s; sgfail := sgfail s; scache := []; sserial := sserial s |}).
+    { unfold s1, Registry.sstep. cbn [sneeds_l needs_g andb]. cbn [Registry.sstep_ok fst]. rewrite B. reflexivity. }
+    rewrite E1. clear E1 s1.
+    set (s2 := {| slangs := load_langs ep_langs; slfail := false; sgens := sgens s; sgfail := sgfail s; scache := []; sserial := sserial s |}).
+    assert (E2 : sstep {| slangs := load_langs ep_langs; slfail := true; sgens := sgens s; sgfail := sgfail s; scache := []; sserial := sserial s |} o = (s2, RErr)).
+    { unfold Registry.sstep. cbn [scache slfail]. rewrite Ho. reflexivity. }
+    rewrite E2. cbn [fst snd]. split; [reflexivity|].
+    unfold Registry.sstep, s2. cbn. reflexivity.
+  Qed.
+
+  Lemma langs_for_file_exact s f d : slfail s = false ->
+    (In d (match snd (sstep s (LangsForFile f)) with RLangs l => l | _ => [] end) <->
+     In d (map snd (slangs s)) /\ matches fnm f d = true).
+  Proof. intro F. rewrite (sstep_lang s (LangsForFile f) eq_refl F). apply langs_for_file_exact_ok. Qed.
+
+  Lemma lang_for_file_exactly_one s f : slfail s = false ->
+    (forall d, snd (sstep s (LangForFile f)) = RLang d <-> langs_for_file fnm f (slangs s) = [d]) /\
+    (length (langs_for_file fnm f (slangs s)) <> 1 -> snd (sstep s (LangForFile f)) = RErr).
+  Proof. intro F. rewrite (sstep_lang s (LangForFile f) eq_refl F). apply lang_for_file_exactly_one_ok. Qed.
+
+  Lemma mm_cached_returned s n m :
+    lookup (lower n) (scache s) = Some m -> sstep s (MMForLang n false) = (s, RMM m).
+  Proof.
+    intro H. unfold Registry.sstep. cbn [sneeds_l needs_g andb]. rewrite H. cbn [andb].
+    apply mm_cached_returned_ok. exact H.
+  Qed.
+
+  Lemma mm_then_cached s n kw m n' : slfail s = false ->
+    snd (sstep s (MMForLang n kw)) = RMM m -> lower n' = lower n ->
+    snd (sstep (fst (sstep s (MMForLang n kw))) (MMForLang n' false)) = RMM m.
+  Proof.
+    intros F H Hn. rewrite (sstep_lang s (MMForLang n kw) eq_refl F) in *.
+    rewrite (sstep_lang _ (MMForLang n' false) eq_refl).
+    - apply mm_then_cached_ok; assumption.
+    - cbn. destruct (mm_for_lang n kw (slangs s) (scache s) (sserial s)) as [[[m'|] c'] k']; exact F.
+  Qed.
+
+  Lemma mm_factory_kwargs_fresh s n d f : slfail s = false ->
+    lookup (lower n) (slangs s) = Some d -> lsrc d = Factory f ->
+    snd (sstep s (MMForLang n true)) = RMM (MMFresh f (sserial s) true) /\
+    sserial (fst (sstep s (MMForLang n true))) = S (sserial s).
+  Proof. intro F. rewrite (sstep_lang s (MMForLang n true) eq_refl F). apply mm_factory_kwargs_fresh_ok. Qed.
 End Proofs.
